@@ -680,6 +680,8 @@ pub fn run_product(ctx: &Ctx, mode: Mode, pcs: &[u16], budget: u64, full_if_le3:
     });
     let n = total.load(std::sync::atomic::Ordering::Relaxed);
     ctx.add_eval(n);
+    // every tuple is a distinct pre-state from which one transition is taken
+    ctx.add_states(n);
     ctx.add_transitions(n);
     ctx.add_traces(n);
     ctx.note("encodings", json!(encs.len()));
